@@ -24,7 +24,7 @@ finally:
 res['silent'] = 'alarms' not in res
 meta = json.load(open(os.path.join(d, 'meta.json')))
 meta['what_i_ran'] = 'tools/try_refactor.py (quick checks, seeds 0 and 7): ' + ' '.join(ids)
-meta['result'] = dict(tests=res.get('tests'), silent=res['silent'], alarms=[(a['id'], a['seed'], a['rc']) for a in res.get('alarms', [])])
+meta['result'] = dict(tests=res.get('tests'), silent=res['silent'], alarms=[(a['id'], a['seed'], a['rc'], a['out'][-800:]) for a in res.get('alarms', [])])
 json.dump(meta, open(os.path.join(d, 'meta.json'), 'w'), indent=1)
 print(json.dumps(res, indent=1)[:3000])
 print('SILENT' if res['silent'] else 'ALARM', os.path.basename(d))
